@@ -36,6 +36,9 @@ static void* __vx_exc_obj; static void* __vx_exc_type; static void* __vx_exc_dto
 static void* __vx_caught_obj[VX_CAUGHT_MAX]; static void* __vx_caught_type[VX_CAUGHT_MAX];
 static void* __vx_caught_dtor[VX_CAUGHT_MAX]; static int __vx_caught_rethrown[VX_CAUGHT_MAX];
 static int __vx_caught_n;
+#define VX_EXC_SLOTS 3
+#define VX_EXC_SIZE 128
+static uint64_t __vx_exc_store[VX_EXC_SLOTS][VX_EXC_SIZE / 8]; static int __vx_exc_next;
 static int __vx_exc_alive;   /* exception objects allocated and not yet freed (leak ledger for C18) */
 typedef void __vx_dtor_fn(void*);
 static inline double __vx_bits2double(uint64_t b) { double d; memcpy(&d, &b, 8); return d; }
